@@ -4,6 +4,7 @@ import (
 	"fmt"
 	"go/types"
 	"os"
+	"path/filepath"
 	"sort"
 	"strings"
 
@@ -21,6 +22,7 @@ type Program struct {
 	AllFns  map[*ssa.Function]bool
 	ByName  map[string][]*ssa.Function // canonical name -> functions (generic origin + instances)
 	RepoDir string
+	Overlay map[string][]byte
 
 	escFields map[string]bool // "T#i" whose address escapes: scalar cell lives in Box
 }
@@ -38,7 +40,20 @@ func LoadProgram(patterns ...string) (*Program, error) {
 	if len(patterns) == 0 {
 		patterns = []string{modPath + "/pkg/..."}
 	}
+	overlay := map[string][]byte{}
+	if od := os.Getenv("KVC_CONTRACT_OVERLAY"); od != "" {
+		// draft contract files kept outside /repo: <overlay dir>/<path relative to repo>
+		_ = filepath.Walk(od, func(path string, info os.FileInfo, err error) error {
+			if err == nil && !info.IsDir() && strings.HasSuffix(path, ".go") {
+				rel, _ := filepath.Rel(od, path)
+				data, _ := os.ReadFile(path)
+				overlay[filepath.Join(repoDir(), rel)] = data
+			}
+			return nil
+		})
+	}
 	cfg := &packages.Config{
+		Overlay:    overlay,
 		Mode:       packages.LoadSyntax,
 		Dir:        repoDir(),
 		BuildFlags: []string{"-tags=verif"},
@@ -60,7 +75,7 @@ func LoadProgram(patterns ...string) (*Program, error) {
 	}
 	sprog, spkgs := ssautil.Packages(pkgs, ssa.InstantiateGenerics|ssa.GlobalDebug)
 	sprog.Build()
-	p := &Program{Pkgs: pkgs, SSA: sprog, SPkgs: map[string]*ssa.Package{}, RepoDir: repoDir()}
+	p := &Program{Pkgs: pkgs, SSA: sprog, SPkgs: map[string]*ssa.Package{}, RepoDir: repoDir(), Overlay: overlay}
 	for _, sp := range spkgs {
 		if sp != nil {
 			p.SPkgs[sp.Pkg.Path()] = sp
